@@ -15,6 +15,12 @@ All three share spec/AggSymmetry.tla (+ SymAgg.tla, TraceAggSymmetry.tla):
      matrix; the reference always from an independent object on an independent tensor); C09 with UPGrad's norm_eps
      also 0 and 0.0 (NormEpsCfgs); C10 at the near-max scale of float64 and float32 for exactly the fixed-weight
      aggregators the model bounds (NearMaxLaw);
+     NON-DEFAULT CONFIGURATIONS (wave 6): C08 evaluates GradDrop with 0/1-valued purity functions (deterministic; by value,
+     spec SymGDVal) and with randomised ones (candidates per column, SymGDCand), without and with leak, on every
+     column-permutation / zero-column scenario in every presentation (aggsym_eval.graddrop_cols); C09 builds the UPGrad
+     objects of the walk down the ladder with the documented defaults OMITTED (spec Defaults / ArgForms), runs the ladder
+     also at 2^-13 (sigma_max within the decade above the default norm_eps for some of the three matrices only), and
+     demands that ConFIG is DEFINED in float64 and float32 on every instance, exactly 0 on the zero matrix (spec NullLaw);
  (c) C->S  seeded random lattice instances and random generator words, logged with both outputs and validated
      by TraceAggSymmetry (exact aggregators by value, the others at predicate level, classification cross-checked).
 
@@ -48,14 +54,23 @@ RULES = {
            "Q is not the identity and the instance has rank >= 2 and a negative Gramian entry (projection-based weights differ from the mean); "
            "MANY-ROW family (spec AggSymMany): 27..40 rows = common offset 2^17 O (float32, float64) / 2^39 O (float64) + integer spread, column words of "
            "adjacent swaps, a negated column, a Hadamard/2 block, zero columns in three layouts: Krum's selection is decided by the model from the exact "
-           "distances of the spread (the offset cancels in every difference) and compared exactly, Krum / TrimmedMean / Mean by value",
+           "distances of the spread (the offset cancels in every difference) and compared exactly, Krum / TrimmedMean / Mean by value; "
+           "GRADDROP in its non-default configurations on every scenario whose Q is a column permutation with zero columns (all presentations): "
+           "purity functions with values in {0,1} ([P >= 1/2], [P > 1/2]: deterministic) without and with leak = P/4 by value against the model "
+           "(spec SymGDVal; padded columns exactly 0), the randomised ones (identity with the argument omitted, P^3, sqrt P; same seed) at "
+           "predicate level: zero column 0, sign-pure column decided, mixed column one of the model's two candidates",
     "C09": "one case = (instance, c1, c2, a, b, scale 2^e, aggregator) with c entries in {1, 2^10, 2^20} (6 orders of magnitude), a, b in 1..3; "
            "the family contains TALL instances with independent columns (dependent rows), conflicting rows and one common row norm, on which the model "
            "computes ConFIG exactly, A(diag(c) J) = (sum_i c_i d_i) y / <y,y> with d_i of both signs: the three values are compared with the model's and "
            "the triples on which the total length changes sign are counted (must be > 0); "
            "non-trivial = c1 != c2, one of them non-uniform, conflicting rows; UPGrad additionally over reg_eps in 1e-2..1e-12 (fresh object per rung, "
            "walked down and then up within one process) and norm_eps in {1e-4, 1e-2, 1e-6, 0 (int), 0.0}, "
-           "including scales at which the singular values of diag(c) J lie on both sides of norm_eps (largest above, a non-zero one below; decided exactly)",
+           "including scales at which the singular values of diag(c) J lie on both sides of norm_eps (largest above, a non-zero one below; decided exactly); "
+           "the objects of the walk down the ladder are built with every argument that has its DOCUMENTED default (norm_eps = 1e-4, reg_eps = 1e-4, "
+           "pref_vector = None) OMITTED, those of the walk up with all arguments written (spec Defaults / ArgForms), also at the scale 2^-13 that puts "
+           "sigma_max of the rows scaled by 1 into the decade above the default norm_eps (some but not all of the three matrices; counted); "
+           "ConFIG / ConFIG(pref) must be DEFINED (no exception) on the three matrices in float64 and float32 also where no value is claimed "
+           "(rank-ambiguous instances, exact direction null: axis-aligned opposed rows), and is exactly 0 in both dtypes on the zero matrix",
     "C10": "one case = (instance, row permutation, parameter vectors permuted with the rows, scale 2^e, aggregator; for the fixed-weight aggregators "
            "with sum |w_i| <= 1 - decided by the model, spec NearMaxLaw - also the scale that puts the largest entry into [max/2, max) of float64 and of "
            "float32); ALL m! permutations of "
@@ -79,6 +94,10 @@ ASSUMPTIONS = [
     "near-max family (C10): only aggregators with FIXED weights w, sum |w_i| <= 1 (model flag NearMaxFlags): every partial sum of w @ J is a subset sum, "
     "bounded by max |J|; Sum, TrimmedMean (sum before dividing) and everything that forms J J^T or distances overflow order-dependently on such matrices "
     "in the unchanged code too and are not evaluated there (counted as skipped:near_max_partial_sums_not_bounded_by_the_model)",
+    "ConFIG with an exactly null exact direction (spec NullLaw): a value (the zero vector) is claimed only on the zero matrix, where the floating-point "
+    "direction pinv(0) w is null whatever the SVD routine does; on axis-aligned opposed rows the code's direction is exactly null or rounding noise "
+    "depending on the order of the rows and the dtype (counted, not claimed): only the absence of an exception is demanded there",
+    "GradDrop, randomised purity functions: a case whose draw (re-done with the same seed) is within 1e-9 of f(P) on some non-zero column is skipped and counted",
     "UPGrad(norm_eps=0): the zero matrix is skipped (sigma_max = 0 is not < 0, the normalisation is 0/0) and counted",
     "rationalisation: Fraction(x * 2^-e).limit_denominator(10^4), accepted only with residual <= 1e-9 * max(1,|x|)",
     "allowance 64*eps*cond*ref with cond from exact model data (det G' >= 1, tr G, rank, line-search denominator) - see harness/aggsym_common.py",
@@ -139,6 +158,12 @@ def _run(ctx: Ctx, replay: str | None, pid: str) -> None:
         if wp["not_a_multiple_of_64"] < 6 or not wp["dense_4^wk_copies"] or not all(wp["layouts"][k] for k in ("append", "interleave", "prepend")) \
                 or not wp["informative_last_column"]:
             raise MachineryError(f"vacuous wide presentations: {wp}")
+        gdc = {k: v for k, v in ctx.counters.items() if k.startswith("graddrop_")}
+        ctx.extra["graddrop_non_default_configurations"] = gdc
+        for k in ("graddrop_cases:value", "graddrop_cases:value:leak", "graddrop_cases:value:leak:presented", "graddrop_cases:candidates",
+                  "graddrop_cases:candidates:leak:presented", "graddrop_mixed_columns_compared_with_the_candidates"):
+            if not gdc.get(k):
+                raise MachineryError(f"vacuous GradDrop family (non-default purity function / leak): {k} = 0")
         hc = {k.split(":", 1)[1]: v for k, v in ctx.counters.items() if k.startswith("history_calls:")}
         ctx.extra["one_object_history_calls_by_presentation"] = hc
         if not all(hc.get(k) for k in ("fresh", "refill", "view", "newview")):
@@ -162,7 +187,9 @@ def _run(ctx: Ctx, replay: str | None, pid: str) -> None:
                   "ladder_walks_descending_first_in_a_process_without_earlier_ladder_calls",
                   "ladder_triples_with_norm_eps_zero_int", "ladder_triples_with_norm_eps_zero_float",
                   "ladder_triples_with_norm_eps_zero_on_matrices_of_small_scale",
-                  "ladder_triples_with_norm_eps_zero_on_matrices_of_large_scale"):
+                  "ladder_triples_with_norm_eps_zero_on_matrices_of_large_scale",
+                  "ladder_objects_built_with_default_arguments_omitted",
+                  "ladder_triples_with_sigma_max_within_a_decade_above_the_default_norm_eps_for_some_matrices_only"):
             ctx.extra[k] = ctx.counters.get(k, 0)
             if not ctx.counters.get(k):
                 raise MachineryError(f"vacuous UPGrad ladder: {k} = 0")
@@ -170,6 +197,13 @@ def _run(ctx: Ctx, replay: str | None, pid: str) -> None:
             ctx.extra[k] = ctx.counters.get(k, 0)
             if not ctx.counters.get(k):
                 raise MachineryError(f"vacuous tall family for ConFIG: {k} = 0")
+        cd = {k: v for k, v in ctx.counters.items() if k.startswith(("config_defined_cases:", "config_axis_aligned_null_direction:"))}
+        ctx.extra["config_defined_on_every_finite_matrix"] = cd
+        for k in ("config_defined_cases:zero_matrix:float64", "config_defined_cases:zero_matrix:float32",
+                  "config_defined_cases:exact_direction_null:float64", "config_defined_cases:exact_direction_null:float32",
+                  "config_defined_cases:rank_ambiguous:float64"):
+            if not cd.get(k):
+                raise MachineryError(f"vacuous exactly-null / defined-everywhere family for ConFIG: {k} = 0")
     n_ep = SETTINGS[pid][ctx.tier][4]
     ctx.extra["trace_summary"] = run_cs(ctx, pid, n_ep)
     # further instance families with their own specifications (model check, replay, traces)
